@@ -11,7 +11,7 @@
 
 namespace c11
 {
-  enum Expect { EX_ANY = 0, EX_REJECT = 1, EX_SAME = 2 };  // EX_SAME: must be accepted and give the seed's output
+  enum Expect { EX_ANY = 0, EX_REJECT = 1, EX_SAME = 2, EX_ACCEPT = 3 };  // EX_SAME: must be accepted and give the seed's output
 
   struct AttrSpan { std::string name, value; size_t vbeg = 0, vend = 0, nbeg = 0; }; // [vbeg,vend) = value without quotes; [nbeg, vend+1) = name="value"
 
